@@ -143,4 +143,4 @@ def gen_history(rng, stats=None, n=None, canary=None, length=None, fair_tail=0, 
             kk = o["op"] + (":" + o.get("ctrl", o.get("cmd", "")) if o["op"] in ("reconcile", "cmd", "edit", "kubelet") else "")
             kk = kk.split("=")[0]
             stats["op_mix"][kk] = stats["op_mix"].get(kk, 0) + 1
-    return {"kind": "world", "objects": objs, "ops": ops, "options": {"affinity": rng.random() < 0.3, "default_mode": "auto"}}
+    return {"kind": "world", "objects": objs, "ops": ops, "options": {"affinity": rng.random() < 0.3, "default_mode": "auto", "list_order": 1 if rng.random() < 0.3 else 0}}
